@@ -60,6 +60,9 @@ type Parser struct {
 	// function definition), which is what we almost always want.  We need this
 	// because Go's own ast package does a very poor job of handling comments.
 	endLineToCommentGroup map[fileLine]*ast.CommentGroup
+	// The lines, of every parsed file, which hold code (as opposed to blank
+	// lines and lines which hold nothing but comments).
+	codeLines map[fileLine]bool
 }
 
 // key type for finding comments.
@@ -80,6 +83,7 @@ func NewWithOptions(opts Options) *Parser {
 		fullyProcessed:        map[string]bool{},
 		fset:                  token.NewFileSet(),
 		endLineToCommentGroup: map[fileLine]*ast.CommentGroup{},
+		codeLines:             map[fileLine]bool{},
 		buildTags:             opts.BuildTags,
 	}
 }
@@ -274,7 +278,10 @@ func (p *Parser) loadPackagesWithConfig(baseCfg *packages.Config, patterns ...st
 		p.goPkgs[pkg.PkgPath] = pkg
 
 		for _, f := range pkg.Syntax {
-			trailing := trailingCommentGroups(p.fset, f)
+			trailing, codeEnd := trailingCommentGroups(p.fset, f)
+			for line := range codeEnd {
+				p.codeLines[line] = true
+			}
 			for _, c := range f.Comments {
 				if trailing[c] {
 					// Not a candidate for the comment block above a
@@ -308,15 +315,20 @@ func (p *Parser) loadPackagesWithConfig(baseCfg *packages.Config, patterns ...st
 
 // trailingCommentGroups returns the comment groups of f which start on a line
 // after some code ("x int // like this").  Such a comment documents what
-// precedes it; it is never the doc comment of the next declaration.
-func trailingCommentGroups(fset *token.FileSet, f *ast.File) map[*ast.CommentGroup]bool {
+// precedes it; it is never the doc comment of the next declaration.  The second
+// result holds the lines of f which hold code.
+func trailingCommentGroups(fset *token.FileSet, f *ast.File) (map[*ast.CommentGroup]bool, map[fileLine]token.Pos) {
 	// The last position of any code on each line.
-	codeEnd := map[int]token.Pos{}
+	codeEnd := map[fileLine]token.Pos{}
+	lineOf := func(pos token.Pos) fileLine {
+		position := fset.Position(pos)
+		return fileLine{position.Filename, position.Line}
+	}
 	mark := func(pos token.Pos) {
 		if !pos.IsValid() {
 			return
 		}
-		if line := fset.Position(pos).Line; pos > codeEnd[line] {
+		if line := lineOf(pos); pos > codeEnd[line] {
 			codeEnd[line] = pos
 		}
 	}
@@ -344,11 +356,11 @@ func trailingCommentGroups(fset *token.FileSet, f *ast.File) map[*ast.CommentGro
 	})
 	trailing := map[*ast.CommentGroup]bool{}
 	for _, c := range f.Comments {
-		if end, ok := codeEnd[fset.Position(c.Pos()).Line]; ok && end < c.Pos() {
+		if end, ok := codeEnd[lineOf(c.Pos())]; ok && end < c.Pos() {
 			trailing[c] = true
 		}
 	}
-	return trailing
+	return trailing, codeEnd
 }
 
 // alreadyLoaded figures out which of the specified patterns have already been loaded
@@ -599,9 +611,20 @@ func (p *Parser) priorDetachedComment(pos token.Pos) []string {
 	if c1 == nil {
 		c2 = p.priorCommentLines(pos, 2)
 	} else {
-		c2 = p.priorCommentLines(c1.List[0].Slash, 2)
+		pos = c1.List[0].Slash
+		c2 = p.priorCommentLines(pos, 2)
 	}
-	return splitLines(c2.Text()) // safe even if c1 is nil
+	if !p.blankLineAbove(pos) {
+		// What ends two lines above belongs to the code in between.
+		c2 = nil
+	}
+	return splitLines(c2.Text()) // safe even if c2 is nil
+}
+
+// blankLineAbove tells whether the line before pos holds no code.
+func (p *Parser) blankLineAbove(pos token.Pos) bool {
+	position := p.fset.Position(pos)
+	return !p.codeLines[fileLine{position.Filename, position.Line - 1}]
 }
 
 // If there's a comment block which ends nlines before pos, return it.
